@@ -1,5 +1,8 @@
 // c14.cpp — the three candidate-cycle collections of the real code, in emission order.
 // case:  A <graph>   double weights      AI <graph>   int weights      AL <graph>   long long weights (64-bit: values above 2^53)
+//        AX <graph>  double weights handed over through an EXTERNAL property map (associative map over std::map<Edge,double>); the graph's interior
+//                    edge_weight property holds decoys (max+1-w), which the builders must not look at
+//        AS scale <graph>  double weights w * 2^scale (tiny / huge magnitudes, exact); recorded weights are printed in the case's units (unscaled)
 // output: for X in H (Horton), F (FVS), I (isometric):  "X <k> (root edge weight)*k T <nt> (source pred_0 .. pred_{n-1})*nt"
 //   root = trees[c.tree()].source(), edge = insertion index, weight exact; the T part lists the builder's trees in order:
 //   source and, per vertex, the predecessor edge id (-1 = root, -2 = no node).  The sources of F's trees are the
@@ -7,9 +10,7 @@
 #include "graph.hpp"
 #include <parmcb/detail/cycles.hpp>
 
-template<class G, class Builder> void run_builder(std::ostream &out, GCase<G> &c) {
-    typedef typename boost::property_map<G, boost::edge_weight_t>::type WMap;
-    WMap wm = boost::get(boost::edge_weight, c.g);
+template<class G, class WMap, class Builder> void run_builder(std::ostream &out, GCase<G> &c, WMap wm) {
     std::vector<parmcb::SPTree<G, WMap>> trees;
     std::vector<parmcb::CandidateCycle<G, WMap>> cycles;
     Builder b;
@@ -29,12 +30,29 @@ template<class G, class Builder> void run_builder(std::ostream &out, GCase<G> &c
     }
 }
 
-template<class G> void run_all(Toks &t, std::ostream &out) {
-    typedef typename boost::property_map<G, boost::edge_weight_t>::type WMap;
+template<class G, class WMap> void run_three(std::ostream &out, GCase<G> &c, WMap wm) {
+    out << "H"; run_builder<G, WMap, parmcb::detail::HortonCyclesBuilder<G, WMap>>(out, c, wm);
+    out << " F"; run_builder<G, WMap, parmcb::detail::FVSCyclesBuilder<G, WMap>>(out, c, wm);
+    out << " I"; run_builder<G, WMap, parmcb::detail::ISOCyclesBuilder<G, WMap>>(out, c, wm);
+}
+
+template<class G> void run_all(Toks &t, std::ostream &out, bool scaled = false) {
+    int scale = scaled ? (int) t.next_ll() : 0;
+    GCase<G> c; read_graph(t, c, scale);
+    run_three(out, c, boost::get(boost::edge_weight, c.g));
+}
+
+// the caller's weights live in an EXTERNAL map; the interior edge_weight property holds decoys (the reversed order)
+template<class G> void run_external(Toks &t, std::ostream &out) {
+    typedef typename boost::graph_traits<G>::edge_descriptor Edge;
+    typedef typename boost::property_traits<typename boost::property_map<G, boost::edge_weight_t>::type>::value_type W;
     GCase<G> c; read_graph(t, c);
-    out << "H"; run_builder<G, parmcb::detail::HortonCyclesBuilder<G, WMap>>(out, c);
-    out << " F"; run_builder<G, parmcb::detail::FVSCyclesBuilder<G, WMap>>(out, c);
-    out << " I"; run_builder<G, parmcb::detail::ISOCyclesBuilder<G, WMap>>(out, c);
+    typedef std::map<Edge, W> Store;
+    Store store; W mx = 0;
+    for (size_t i = 0; i < c.edges.size(); i++) { store[c.edges[i]] = (W) c.iw[i]; mx = std::max(mx, (W) c.iw[i]); }
+    for (size_t i = 0; i < c.edges.size(); i++) boost::put(boost::edge_weight, c.g, c.edges[i], mx + 1 - (W) c.iw[i]);
+    boost::associative_property_map<Store> xm(store);
+    run_three(out, c, xm);
 }
 
 int main() {
@@ -43,6 +61,8 @@ int main() {
         if (kind == "A") run_all<DGraph>(t, out);
         else if (kind == "AI") run_all<IGraph>(t, out);
         else if (kind == "AL") run_all<LGraph>(t, out);
+        else if (kind == "AX") run_external<DGraph>(t, out);
+        else if (kind == "AS") run_all<DGraph>(t, out, true);
         else throw std::runtime_error("c14: bad kind " + kind);
     });
 }
